@@ -9,6 +9,8 @@ import FendModel.Proofs.BigUintPow
 import FendModel.Proofs.BigRatMulDiv
 import FendModel.Proofs.BigRatField
 import FendModel.Proofs.BigRatPow
+import FendModel.Proofs.BigRatCmp
+import FendModel.Proofs.Complex
 import FendModel.Model.Pinned
 
 namespace Fend.C01
@@ -121,6 +123,43 @@ theorem rat_pow_neg_int (fuel : Nat) (x e : BigRat) (wx : BigRat.WFQ x) (dx : va
 -- non-vacuity: (-2/3)^(6/3) meets the hypotheses (unreduced integer exponent, negative base); `powTop` uses fuel 4 = 2 + 2
 example : BigRat.WFQ ⟨true, .small 2, .small 3⟩ ∧ BigRat.WFQ ⟨false, .small 6, .small 3⟩ ∧ BigRat.IntExp ⟨false, .small 6, .small 3⟩ := by
   refine ⟨⟨?_, ?_⟩, ⟨?_, ?_⟩, ⟨?_, ?_⟩⟩ <;> simp [WF, val, B]
+
+/-- comparison of rationals (`Ord for BigRat`, the sign of the difference) is the order of the denoted values -/
+theorem rat_cmp_exact (a b : BigRat) (wa : BigRat.WFQ a) (wb : BigRat.WFQ b) (da : val a.den ≠ 0) (db : val b.den ≠ 0) :
+    BigRat.cmp a b = some (compare (BigRat.valQ a) (BigRat.valQ b)) := BigRat.cmp_valQ a b wa wb da db
+
+/-! ### complex rationals a + bi (`Exact<Complex>` over exact rational parts) -/
+
+/-- complex addition is componentwise addition of the denoted rationals -/
+theorem complex_add_exact (a b : Cx) (ha : Cx.OKC a) (hb : Cx.OKC b) :
+    ∃ r, Cx.add a b = .ok r ∧ BigRat.valQ r.re = BigRat.valQ a.re + BigRat.valQ b.re ∧
+      BigRat.valQ r.im = BigRat.valQ a.im + BigRat.valQ b.im ∧ Cx.OKC r := Cx.add_val a b ha hb
+
+/-- complex multiplication: `(a + bi)(c + di) = (ac - bd) + (ad + bc)i`, including every zero short-cut -/
+theorem complex_mul_exact (a b : Cx) (ha : Cx.OKC a) (hb : Cx.OKC b) :
+    ∃ r, Cx.mul a b = .ok r ∧
+      BigRat.valQ r.re = BigRat.valQ a.re * BigRat.valQ b.re - BigRat.valQ a.im * BigRat.valQ b.im ∧
+      BigRat.valQ r.im = BigRat.valQ a.re * BigRat.valQ b.im + BigRat.valQ a.im * BigRat.valQ b.re ∧ Cx.OKC r :=
+  Cx.mul_val a b ha hb
+
+/-- complex division (general path and the both-real fast path): `divideByZero` exactly for the divisor 0 + 0i, otherwise
+the quotient q with q * b = a in Q(i) -/
+theorem complex_div_exact (a b : Cx) (ha : Cx.OKC a) (hb : Cx.OKC b) :
+    (BigRat.valQ b.re = 0 ∧ BigRat.valQ b.im = 0 → Cx.div a b = .error .divideByZero) ∧
+    (¬ (BigRat.valQ b.re = 0 ∧ BigRat.valQ b.im = 0) → ∃ q, Cx.div a b = .ok q ∧ Cx.OKC q ∧
+      BigRat.valQ q.re * BigRat.valQ b.re - BigRat.valQ q.im * BigRat.valQ b.im = BigRat.valQ a.re ∧
+      BigRat.valQ q.re * BigRat.valQ b.im + BigRat.valQ q.im * BigRat.valQ b.re = BigRat.valQ a.im) :=
+  Cx.div_val a b ha hb
+
+/-- negation and conjugation -/
+theorem complex_neg_conj (c : Cx) :
+    (BigRat.valQ (Cx.neg c).re = - BigRat.valQ c.re ∧ BigRat.valQ (Cx.neg c).im = - BigRat.valQ c.im) ∧
+    (BigRat.valQ (Cx.conj c).re = BigRat.valQ c.re ∧ BigRat.valQ (Cx.conj c).im = - BigRat.valQ c.im) :=
+  ⟨Cx.neg_val c, Cx.conj_val c⟩
+
+-- non-vacuity: (1/2 + 3i) and (0/5 + 0i) are well-formed operands (the second is the zero divisor)
+example : Cx.OKC ⟨⟨false, .small 1, .small 2⟩, ⟨false, .small 3, .small 1⟩⟩ ∧ Cx.OKC ⟨⟨false, .small 0, .small 5⟩, ⟨true, .large [0, 0], .small 1⟩⟩ := by
+  refine ⟨⟨⟨⟨?_, ?_⟩, ?_⟩, ⟨⟨?_, ?_⟩, ?_⟩⟩, ⟨⟨⟨?_, ?_⟩, ?_⟩, ⟨⟨?_, ?_⟩, ?_⟩⟩⟩ <;> simp [WF, val, valL, B]
 
 /-- Defect D20 (repaired by a `fix:` commit): on the pinned tree `add` was NOT addition.
 Witness: `1 + (2^128 - 1)` gave `2^64`. -/
